@@ -36,4 +36,66 @@ CHECKS["C12"] = {
     "assumptions": ["arrival timestamps strictly increase (wall clock in production)", "float comparison tolerance 1e-9 relative"],
 }
 
+SIM_NOTE = "the in-memory network and the synchronous scheduling of handler calls are the harness's model of UDP and of the node's goroutines; join/leave stream clients mirror Gossip.join/leave; known finding F3 (stale delta after an expiry) is excluded by dropping the packet"
+CHECKS["C02"] = {
+    "subs": [{"pkg": "sim", "test": "TestC02", "quick": 4000, "thorough": 200000, "shards_quick": 8, "shards_thorough": 16, "timeout_thorough": 7200}],
+    "engine": "SIM",
+    "level_text": "Deterministic-simulation property test: generated histories over 2-4 real gossip nodes and a generated network (loss, duplication, reordering, partitions, truncating packet limits); after every step each observer's view is checked against the owner's recorded write history. Exploration only.",
+    "technique": "stateful PBT (rapid) over a simulated network in a synctest bubble; oracle = recorded owner write history",
+    "level_note": SIM_NOTE,
+}
+CHECKS["C14"] = {
+    "subs": [{"pkg": "sim", "test": "TestC14", "quick": 4000, "thorough": 200000, "shards_quick": 8, "shards_thorough": 16, "timeout_thorough": 7200}],
+    "engine": "SIM",
+    "level_text": "Same simulated histories; the oracle folds every watcher notification in order and compares the fold with the node's visible view after every step. Exploration only.",
+    "technique": "stateful PBT (rapid), oracle = fold of recorded notifications vs visible state",
+    "level_note": SIM_NOTE,
+}
+CHECKS["C03"] = {
+    "subs": [{"pkg": "sim", "test": "TestC03", "quick": 2000, "thorough": 80000, "shards_quick": 8, "shards_thorough": 16, "timeout_thorough": 7200}],
+    "engine": "SIM",
+    "level_text": "Generated divergent start states followed by a fair closure of real push-pull exchanges; convergence to structural equality is required within a bound and without idle streaks. Liveness is decided against explicit round bounds. Exploration only.",
+    "technique": "stateful PBT (rapid) + bounded fair closure, oracle = structural equality with the owner's state",
+    "level_note": SIM_NOTE + "; 'eventually delivers' is modelled by the closure's fair schedule",
+}
+CHECKS["C04"] = {
+    "subs": [{"pkg": "sim", "test": "TestC04", "quick": 3000, "thorough": 150000, "shards_quick": 8, "shards_thorough": 16, "timeout_thorough": 7200}],
+    "engine": "SIM",
+    "level_text": "Simulated histories composing the real gossip state, syncer, cluster state and upstream manager; whenever an observer has caught up with an owner its routing table must mirror the owner's advertisement exactly, and every lookup must return an active, advertising remote node. Exploration only.",
+    "technique": "stateful PBT (rapid), oracle = owner's own cluster state at equal versions",
+    "level_note": SIM_NOTE,
+}
+CHECKS["C11"] = {
+    "subs": [{"pkg": "sim", "test": "TestC11", "quick": 3000, "thorough": 150000, "shards_quick": 8, "shards_thorough": 16, "timeout_thorough": 7200}],
+    "engine": "SIM",
+    "level_text": "Simulated membership histories on a virtual clock with boundary-directed time steps; invariants I1-I6 are checked after every atomic action. Known finding F2 is recognised by its structural signature. Exploration only.",
+    "technique": "stateful PBT (rapid) on a virtual clock, invariant oracle over the membership history",
+    "level_note": SIM_NOTE + "; crashed nodes never restart in the generated histories",
+}
+
+CHECKS["C05"] = {
+    "subs": [
+        {"pkg": "sim", "test": "TestC05Seq", "quick": 10000, "thorough": 400000, "shards_quick": 4, "shards_thorough": 8},
+        {"pkg": "sim", "test": "TestC05Concurrent", "quick": 2000, "thorough": 60000, "shards_quick": 4, "shards_thorough": 8},
+        {"pkg": "sim", "test": "TestC05Sim", "quick": 2000, "thorough": 60000, "shards_quick": 4, "shards_thorough": 8},
+    ],
+    "engine": "SIM",
+    "level_text": "Model-based property tests on the real manager + cluster state + syncer + gossip state of one node (sequential with repeated/late removals; concurrent goroutine programs checked at quiescence) and inside simulated cluster histories: the advertised count per endpoint must equal the multiset of registered upstream objects. Exploration only; concurrent interleavings are sampled.",
+    "technique": "model-based stateful PBT (rapid) + generated concurrent programs with a quiescence oracle",
+    "level_note": "each upstream object is registered at most once and removed only after it was registered (as the upstream handler and the proxy do)",
+}
+CHECKS["C13"] = {
+    "subs": [
+        {"pkg": "pure", "test": "TestC13Delta", "quick": 600, "thorough": 40000, "shards_quick": 6, "shards_thorough": 12},
+        {"pkg": "pure", "test": "TestC13Digest", "quick": 600, "thorough": 40000, "shards_quick": 3, "shards_thorough": 8},
+        {"pkg": "pure", "test": "TestC13GossipSender", "quick": 100, "thorough": 3000, "shards_quick": 3, "shards_thorough": 8},
+        {"pkg": "pure", "test": "TestC13Hostile", "quick": 30000, "thorough": 3000000, "shards_quick": 6, "shards_thorough": 16},
+        {"pkg": "sim", "test": "TestC13Sim", "quick": 2000, "thorough": 80000, "shards_quick": 4, "shards_thorough": 8},
+    ],
+    "engine": "PURE+SIM",
+    "level_text": "Property-based tests of the real encoders at every maximum packet size (oracle: longest whole-item prefix, boundaries computed by encoding each item separately, cross-checked with the real decoder), of every packet emitted inside simulated histories (intended delta recomputed by the harness), and of the packet/stream handlers under structured hostile mutations and forged self-referring deltas (oracle: no panic, returns, own state untouched). Exploration only.",
+    "technique": "PBT (rapid) with exhaustive size sweep per case; encoder/decoder cross-check; structure-aware mutation fuzzing of handlers with a state-invariance oracle",
+    "level_note": "the msgpack codec library is trusted for item sizes; hostile inputs are mutations of valid messages plus raw prefixed bytes (native coverage-guided fuzzing is run in the thorough tier)",
+}
+
 NOT_APPLICABLE = {}
